@@ -9,6 +9,7 @@
 From AV.Model Require Import Base Bytes Vec Ops Interp.
 From AV.Spec Require Import VecSpec WorldSpec.
 From AV.Proofs Require Import MemLemmas Rep VecProofs RangeProofs CapProofs WorldCore WorldProofs.
+From AV.Proofs Require TypeProofs CloneProofs.
 
 (** what the step [o], run from world [w] with result [sr], owes its caller *)
 Definition cap_promise (c : cfg) (o : op) (w : world) (sr : step_result) : Prop :=
@@ -141,9 +142,30 @@ Lemma withcap_promise c w dst bk n :
   cfg_wf c -> adm_withcap c bk n -> resizable bk = true ->
   cap_promise c (OWithCapacity dst bk n) w (run_step c None (OWithCapacity dst bk n) w).
 Proof.
-  intros Hwf (Hbw & Hmax & Hlim) Hrz. cbn [cap_promise]. intros H0.
+  intros Hwf (Hbw & Hmax & Hlim0) Hrz. cbn [cap_promise]. intros H0.
   set (v0 := {| vlen := 0; vcap := 0; vmem := []; vgen := 0; vbk := bk |}).
   set (u0 := wuw (start_of w)).
+  destruct Hlim0 as [Hlim|[Hbig Hc0]].
+  2:{ (* refused before anything is allocated: the step panics, so it did not return *)
+      exfalso.
+      pose proof (new_vi c bk v0 u0 Hbw) as Hn.
+      assert (Hb : exists v1 u1, mem_build c bk (v0, u0) = Ok tt (v1, u1) /\ vbk v1 = bk /\ c_sz c * vcap v1 <= alloc_limit /\
+                                 same_user u0 u1).
+      { destruct bk as [|size|k size| |c0]; try discriminate; destruct Hn as (v1 & u1 & E & HV & Hsu);
+          exists v1, u1; (split; [exact E|]); (split; [exact (vi_bk _ _ _ HV)|]); (split; [|exact Hsu]);
+          unfold mem_build, bind, emitv, setv in E; cbn in E; injection E as <- _; cbn [vcap]; lia. }
+      destruct Hb as (v1 & u1 & E1 & Hbk1 & Hcap1 & Hsu1).
+      assert (Hres : resizable_backend (vbk v1)).
+      { rewrite Hbk1. destruct bk; try discriminate; [left; reflexivity|right; eexists; reflexivity]. }
+      rewrite <- Hbk1 in Hbig.
+      destruct (mem_resize_layout_panic c v1 u1 n Hwf Hres Hcap1 Hbig) as (u2 & E2 & Hsu2).
+      destruct (CloneProofs.mem_drop_ok c v1 u2) as (v3 & u3 & E3 & _ & Hn3 & Hf3 & He3).
+      destruct Hsu1 as (_ & Hf1 & _). destruct Hsu2 as (_ & Hf2 & _).
+      assert (Hfu2 : ufuse u2 = None) by (rewrite Hf2, Hf1; reflexivity).
+      assert (Eq : quiet_st (mem_drop c) (v1, u2) = Ok tt (v3, u3)).
+      { apply TypeProofs.quiet_st_none; [exact Hfu2|exact E3|congruence]. }
+      revert H0. unfold run_step. fold (start_of w). cbn [exec]. fold v0. fold u0. unfold bind at 1. rewrite E1.
+      unfold unwinding_st, on_unwind. rewrite E2, Eq. cbn [sr_out]. intros H0. discriminate. }
   assert (Hb : exists v1 u1, mem_build c bk (v0, u0) = Ok tt (v1, u1) /\ VI c v1 {| a_bk := bk; a_xs := [] |} /\
                              vcap v1 = match bk with BReloc c0 => c0 | _ => 0 end).
   { pose proof (new_vi c bk v0 u0 Hbw) as Hn.
